@@ -1022,6 +1022,36 @@ func (fv *FuncVerifier) verifyUnit(lit *ast.FuncLit) {
 		// captured variables of the enclosing function: arbitrary values (params of the function keep entry semantics)
 		declare(fi.Decl.Recv)
 		declare(fi.Decl.Type.Params)
+		// captured LOCALS of the enclosing function get their (arbitrary) entry value now, so that old(x) in the
+		// literal's clauses and x in its body denote the same value until the literal assigns x
+		seenCap := map[types.Object]bool{}
+		ast.Inspect(lit.Body, func(n ast.Node) bool {
+			id, ok := n.(*ast.Ident)
+			if !ok {
+				return true
+			}
+			v, ok := info.Uses[id].(*types.Var)
+			if !ok || v.IsField() || seenCap[v] || v.Pkg() == nil || v.Parent() == v.Pkg().Scope() {
+				return true
+			}
+			if v.Pos() >= lit.Pos() && v.Pos() < lit.End() {
+				return true // declared inside the literal
+			}
+			if v.Pos() < fi.Decl.Pos() || v.Pos() >= fi.Decl.End() {
+				return true
+			}
+			if _, isParam := st.vars[v]; isParam {
+				return true
+			}
+			if _, isSig := v.Type().Underlying().(*types.Signature); isSig {
+				return true // function-typed locals (closures) are resolved through their literals
+			}
+			seenCap[v] = true
+			nv := fv.fresh(v.Name(), fv.sortOf(v.Type()))
+			st.vars[v] = nv
+			st.Assume(fv.typeInv(nv, v.Type()))
+			return true
+		})
 	} else {
 		declare(fi.Decl.Recv)
 	}
